@@ -739,9 +739,9 @@ def toJulianDate(date_time):
 """
 
 
-def rule_r10(chk, p, t):
+def rule_r10(chk, p, t, rid="C05.R10"):
     r = chk.rule(
-        "C05.R10",
+        rid,
         "calendar and Julian-date conversions are functions of their arguments only",
         10,
         "every datetime in the scenario is a naive UTC datetime; a conversion that consults the host (astimezone on a "
